@@ -889,3 +889,10 @@ Proof.
   - apply (tgt_ok_retarget g g' p q _ y L Hq B3).
   - rewrite B3. simpl. auto.
 Qed.
+
+Lemma fmark_body_misuse : forall fixed t p rh c hk g,
+  misuse g = true -> misuse (fmark_body fixed t p rh c hk g) = true.
+Proof.
+  intros. unfold fmark_body.
+  repeat match goal with |- context[match ?x with _ => _ end] => destruct x end; cbn; auto.
+Qed.
